@@ -356,6 +356,11 @@ GraphPreds(D, n) ==
     UNION { IF IsCachedNode(D, m) THEN {m}
             ELSE {ObjNode(m)} \cup GraphPreds(D, m) : m \in CalledOK(D, n) }
 
+\* cached elements whose values flow directly into n (through uncached callees)
+RECURSIVE CalledThrough(_, _)
+CalledThrough(D, n) ==
+    UNION { IF IsCachedNode(D, m) THEN {m} ELSE CalledThrough(D, m) : m \in CalledOK(D, n) }
+
 RECURSIVE TransDeps(_, _, _)
 TransDeps(D, front, seen) ==
     LET nxt == UNION {CalledOK(D, m) : m \in front} \ seen IN
